@@ -122,6 +122,8 @@ type interpreter struct {
 	bitsN        int
 	hashN        int
 	symMapOrder  bool
+	decided      map[*Term]bool // conditions already on the path condition (decide does not fork on them again)
+	quiet        bool // verifQuiet: assertions, covers and expectations of a wrapped harness body are skipped
 	mapOrderN    int
 	symClock     bool
 	clockN       int
